@@ -123,6 +123,11 @@ def gen_c04(ctx, quick):
             es = boot(rf, 0, list(range(1, rf - 1))) + add(rf - 1, verify=False)
             cases.append(dict(rf=rf, world=world(rf), events=es + [ev("read", off=0, len=4096)] * 3 + [ev("read", off=0, len=4096, fs=fl((0, "read")))] + [ev("read", off=0, len=4096)]))
             cases.append(dict(rf=rf, world=world(rf), events=es + [ev("monfail", a=a) for a in range(rf - 1)] + [ev("read", off=0, len=4096)]))
+            # every RW replica fails the read while a rebuilding one is attached: the read fails (a WO replica is
+            # not a healthy copy), then with the RW replicas gone nothing is served
+            allrw = [dict(a=a, k="read") for a in range(rf - 1)]
+            cases.append(dict(rf=rf, world=world(rf), events=es + [ev("read", off=0, len=4096, fs=allrw), ev("read", off=0, len=4096), ev("write", wid=1, off=0, len=4096)]))
+            cases.append(dict(rf=rf, world=world(rf), events=es + [ev("read", off=0, len=4096)] + [ev("read", off=0, len=4096, fs=allrw), ev("read", off=4096, len=4096)]))
             cases.append(dict(rf=rf, world=world(rf), events=full + [ev("setmode", a=0, mode="ERR"), ev("read", off=0, len=4096), ev("read", off=0, len=4096)]))
             for a in range(rf):
                 cases.append(dict(rf=rf, world=world(rf), events=full + [pair(ev("write", wid=1, off=0, len=4096, fs=fl((a, "write"))), ev("read", off=0, len=4096), "write"),
@@ -174,6 +179,31 @@ def gen_c09(ctx, quick):
                 es = regs + [ev("register", a=who, uuid=who + 1, rev=revs[who], fs=[dict(a=0, k="alive")])] + later
                 es += [ev("start", addrs=[a]) for a in range(q)]
                 cases.append(dict(rf=rf, world=world(rf, revs=revs), events=es))
+    # a start request naming several replicas: the signalled leader first, then a replica that registered
+    # afterwards with a higher / equal / lower revision count (replicas behind the maximum found at start-up are
+    # not used)
+    for rf in (3, 5):
+        q = rf // 2 + 1
+        for late_rev in (8, 5, 3):
+            revs = {a: 5 for a in range(rf)}
+            late = q
+            revs[late] = late_rev
+            es = [ev("register", a=a, uuid=a + 1, rev=revs[a]) for a in range(q)]
+            es += [ev("register", a=late, uuid=late + 1, rev=late_rev)]
+            for lead in range(q):
+                es2 = es + [ev("start", addrs=[lead, late]), ev("read", off=0, len=4096), ev("write", wid=1, off=0, len=4096)]
+                cases.append(dict(rf=rf, world=world(rf, revs=revs), events=es2))
+    # a second bootstrap inside the same controller: started, every replica removed again, the replicas come
+    # back one at a time (registrations of replicas that are still away must not count)
+    for rf in (3,):
+        revs = {0: 9, 1: 7, 2: 7}
+        first = [ev("register", a=0, uuid=1, rev=9), ev("register", a=1, uuid=2, rev=7), ev("start", addrs=[0]),
+                 ev("addcheck", a=1), ev("addcommit", a=1), ev("verify", a=1)]
+        for order in ((1, 0, 2), (2, 1, 0), (1, 2, 0)):
+            es = first + [ev("remove", a=1), ev("remove", a=0)]
+            es += [ev("register", a=a, uuid=a + 1, rev=revs[a]) for a in order]
+            es += [ev("start", addrs=[a]) for a in order]
+            cases.append(dict(rf=rf, world=world(rf, revs=revs), events=es))
     # all orders of three registrants with all rev assignments from {1,2,3} for rf=3 (quick: a third of them)
     for revs in itertools.product((1, 2, 3), repeat=3):
         for order in itertools.permutations(range(3)):
